@@ -3,7 +3,7 @@ from common import COMMON_TB
 PROP = {
     "bin": "c05",
     "prop_file": "Properties/C05.v",
-    "model_files": ["Storage/Crash.v", "Storage/CrashProofs.v", "Storage/ReaderGC.v", "Storage/ReaderGCProofs.v"],
+    "model_files": ["Storage/Crash.v", "Storage/CrashProofs.v", "Storage/ReaderGC.v", "Storage/ReaderGCProofs.v", "Storage/ReloadStore.v", "Storage/ReloadStoreProofs.v"],
     "level": "proof",
     "engine": "E1-storage",
     "level_text": "Proof: a small-step model of reader reloads (lock, read meta.json, open files, unlock), meta publication and garbage collection (lock section, then "
@@ -13,12 +13,16 @@ PROP = {
                   "a second Index instance of the same directory) reload continuously, slowed down inside their lock section, while a real writer commits, merges, "
                   "collects, rolls back and restarts; the VerifDirectory log is mapped to the model's events and checked by the proved discipline inside Coq. Spec layer "
                   "on the implementation: every reload's document set equals one commit's, the sequence never moves back, no open fails, and every held Searcher gives the "
-                  "same answer at the end of the history as when it was taken. Partial: snapshot immutability rests on files being write-once and handles surviving "
+                  "same answer at the end of the history as when it was taken. One reader shared by several threads (ReloadStore.v): reload() = load under META_LOCK, then store; with "
+                  "reload() serialized (RELOAD_SERIALIZED regenerated from the source) C05_shared_reader_never_moves_back proves for EVERY interleaving of commits, reloads pre-empted "
+                  "between load and store, and searcher() calls that what the reader hands out never moves back; the unserialized variant is refuted by a witness (F051, fixed in /repo). "
+                  "Tie: the harness drives real threads through generated schedules (a reloading thread is stopped right after it released META_LOCK) and the observed generations are "
+                  "compared with the model inside Coq. Partial: snapshot immutability rests on files being write-once and handles surviving "
                   "unlink (checked on the implementation, and by the discipline's 'names never reused'); ReloadPolicy::OnCommitWithDelay watcher timing is not covered.",
     "level_note": "Trusted: as C01; thread names identify the reader threads in the log; real interleavings are those the scheduler and the injected delays produce "
                   "(the theorem covers all interleavings of the model). No axioms.",
-    "technique": "Coq invariant proof over an interleaving model of reload / publish / GC + real multi-threaded traces checked by the discipline in Coq",
-    "rule": "histories of 8-40 writer operations with 2-3 concurrent reader threads; non-trivial = >= 2 commits and >= 4 reloads",
+    "technique": "Coq invariant proofs over interleaving models of reload / publish / GC and of load-then-store reloads on a shared reader + real multi-threaded traces and controlled schedules compared in Coq",
+    "rule": "histories of 8-40 writer operations with 2-3 concurrent reader threads; non-trivial = >= 2 commits and >= 4 reloads; shared-reader schedules of 4-12 events {publish, begin reload (pre-empted or not), resume, look} with up to 6 reloading threads",
     "trusted_base": COMMON_TB + ["mapping of log entries to reader/GC/writer events by thread name and lock-file operations"],
     "assumptions": ["an open FileSlice keeps its bytes after the file is unlinked (RamDirectory/VerifDirectory by construction, POSIX for mmap)"],
 }
